@@ -386,6 +386,10 @@ func c15ArrayCases(recv []any) []c15Case {
 			{"element", "function($e) { return $e % 2 == 0; }", func(e, i int64) bool { return e%2 == 0 }},
 			{"element+index", "function($e, $i) { return $i >= 1 && $e > 1; }", func(e, i int64) bool { return i >= 1 && e > 1 }},
 			{"element+index+array", "function($e, $i, $arr) { return $arr->length > 2 && $e >= 2; }", func(e, i int64) bool { return n > 2 && e >= 2 }},
+			// the third argument is the array the method was called on, whole and unchanged, at every call
+			{"array-first-element", "function($e, $i, $arr) { return $e != $arr[0]; }", func(e, i int64) bool { return e != ints[0] }},
+			{"array-previous-element", "function($e, $i, $arr) { return $i == 0 || $e != $arr[$i - 1]; }", func(e, i int64) bool { return i == 0 || e != ints[i-1] }},
+			{"array-last-element", "function($e, $i, $arr) { return $e < $arr[$arr->length - 1]; }", func(e, i int64) bool { return e < ints[len(ints)-1] }},
 		}
 		for _, p := range preds {
 			var filt []any
